@@ -60,6 +60,7 @@ structure Att where
   localCode : Nat := 0         -- status the client closed it with (when `reset`)
   respRead : Nat := 0          -- messages of an OK response already delivered to the application
   finishCalls : Nat := 0       -- csAttempt.finish calls that reached pickResult.Done (at most once by `finished`)
+  doneCode : Nat := 0          -- status code of the error `finish` (hence Done's DoneInfo.Err) was called with (0 = nil)
 deriving Repr, DecidableEq
 
 def Att.msgs (a : Att) : Nat := (a.log.filter fun w => w matches .msg _ _).length
@@ -166,7 +167,7 @@ def St.buffer (st : St) (sz : Int) (op : ROp) : St :=
 def St.finishAttempt (st : St) (code : Nat) : St :=
   st.updCur fun a =>
     if a.finishCalls > 0 then a
-    else { a with finishCalls := 1, reset := if a.dead then a.reset else true,
+    else { a with finishCalls := 1, doneCode := code, reset := if a.dead then a.reset else true,
                   localCode := if a.dead then a.localCode else code }
 
 /-- `clientStream.finish(err)`: `code = 0` stands for nil / io.EOF. -/
@@ -434,6 +435,10 @@ def St.opHeader (fuel : Nat) (st : St) : St × Res × List Ev × List Delay :=
   (r.1.endHeader r.2.1,
    (match r.2.1 with | .err _ => .nohdr | .errExhausted _ => .nohdr | x => x), r.2.2.1, r.2.2.2)
 
+/-- The application cancels the RPC's context (streaming RPCs: the goroutine started by
+    `newClientStream` calls `cs.finish(Canceled)`). -/
+def St.opCancel (st : St) : St × Res × List Ev × List Delay := ((st.finish 1).settle, .ok, [], [])
+
 /-- application script -/
 inductive AppOp
   | new
@@ -441,6 +446,7 @@ inductive AppOp
   | close
   | recv
   | header
+  | cancel
 deriving Repr, DecidableEq
 
 /-- `clientStreamWrapper.SendMsg` (defaultStreamInterceptor): for a non-client-streaming RPC io.EOF
@@ -467,6 +473,7 @@ def St.step (fuel : Nat) (st : St) : AppOp → St × Res × List Ev × List Dela
   | .close => st.opClose fuel
   | .recv => st.opRecvW fuel
   | .header => st.opHeader fuel
+  | .cancel => st.opCancel
 
 /-- run a whole application script, collecting every server-side event. -/
 def St.run (fuel : Nat) : St → List AppOp → St × List Res × List Ev
